@@ -69,6 +69,13 @@ func runC04(e *Env) error {
 		tail := genLit(rg, 12)
 		src.WriteString(tail)
 		want.WriteString(tail)
+		if i%6 == 5 {
+			// the same template as part of a large one (the large-template tokenizer is a separate code path)
+			filler := strings.Repeat("<li>filler</li>\n", 260)
+			src.WriteString(filler)
+			want.WriteString(filler)
+			r.Hit("large-template")
+		}
 		c := &Case{Templates: map[string]string{"main": src.String()}, Main: "main", Ctx: ctx, SpyFunctions: []string{"spyfn"}, FailAt: -1}
 		im, _, _, err := compareCase(e, c, "render-model-c04", "correspondence render (Lean pipeline vs real engine) on literal-text templates")
 		if err != nil {
